@@ -28,3 +28,8 @@ def _bulk():
     """bulk (calculate_many_marginals) and Kronecker-product (krondot) query paths, value-level equations (pv/contracts/bulk.py)"""
     from ..contracts import bulk as BK
     return [deductive.verify_function(rel, q, c, hooks=BK.hooks(sites), prefix='%s::%s[query equations]' % (rel, q)) for rel, q, c, sites in BK.ITEMS]
+
+
+def replay(prop, ob):
+    from ..contracts import bulk as BK
+    return BK.replay(ob)
